@@ -28,7 +28,7 @@ CLAUSE_PROPERTY = {
     "ActionInBounds": "C10",
     "NoStepAfterEnd": "C11", "BudgetRespected": "C11", "StopsAtEpisodeLimit": "C11", "NoLearnBeforeWarmup": "C11", "ReturnedCount": "C11",
     "GreedyIsMaximiser": "C13", "GreedyOnCurrentEstimate": "C13", "EpsilonZeroAlwaysGreedy": "C13", "EpsilonOneNeverGreedy": "C13",
-    "PolicyBeforeWarmup": "C13", "ExploreOnlyInWarmup": "C13",
+    "PolicyBeforeWarmup": "C13", "ExploreOnlyInWarmup": "C13", "ExecutedActionGreedy": "C13",
     "FrozenComponentChanged": "C05", "StoringChangesNothing": "C05", "ActingChangesNothing": "C05", "TrainedOnlyWhenDue": "C05",
     "UpdateMissing": "C05", "ChangeOutsideLearning": "C05",
     "ResultComponentsDistinct": ("C05", "C06"), "HardCopyIsCopy": "C06", "TargetLawInRun": "C06", "CopyGroupIncomplete": "C06", # a target / frozen copy changing where no update of it is due means some update routine changed a component it
@@ -238,9 +238,18 @@ def replay_one(replay, pid):
     return 1 if bad or (t.get("error") and replay.get("clause") in ("RunAway", "raised")) else 0
 
 
-LOOP_INVS = ["StoredFaithful", "FirstOfEpisodeFromReset", "CondFaithful", "BudgetRespected", "EpisodeLimitRespected", "NoLearnBeforeWarmup", "ReturnedCount", "ExploreOnlyInWarmup"]
+LOOP_INVS = ["StoredFaithful", "FirstOfEpisodeFromReset", "CondFaithful", "BudgetRespected", "EpisodeLimitRespected", "NoLearnBeforeWarmup", "ReturnedCount", "ExploreOnlyInWarmup",
+             "ExecutedActionGreedy"]
 LOOP_DEVS = {"stale_after_reset": ("C01", None), "store_done_flag": ("C01", "StoredFaithful"), "learn_early": ("C11", "NoLearnBeforeWarmup"),
-             "break_before_count": ("C11", "ReturnedCount"), "return_plus_one": ("C11", "ReturnedCount"), "step_after_end": ("C11", None)}
+             "break_before_count": ("C11", "ReturnedCount"), "return_plus_one": ("C11", "ReturnedCount"), "step_after_end": ("C11", None),
+             # action ActOnStaleChoice: execute the choice made at the successor before the update instead of evaluating the current estimate
+             "stale_choice": ("C13", "ExecutedActionGreedy")}
+
+
+def _loop_rows(pid):
+    """Constant Rows of Loop.tla: the estimate model (two actions, ties, rows that change under updates) is switched on for
+    the property that speaks about estimates; for the others one fixed row (no additional branching)."""
+    return tlc.Subst("RowsTie" if pid == "C13" else "RowsOne")
 
 
 def design_model(rep, pid, quick=True):
@@ -249,18 +258,20 @@ def design_model(rep, pid, quick=True):
     if not quick:
         cfgs += [dict(Budget=8, Start=2, EpLimit=3, MaxEpLen=3, WarmAct=4, WarmLearn=4), dict(Budget=7, Start=0, EpLimit=1, MaxEpLen=4, WarmAct=9, WarmLearn=2)]
     for c in cfgs:
-        c = dict(c, DEV=set())
+        c = dict(c, DEV=set(), Rows=_loop_rows(pid))
         r = tlc.run("Loop", tlc.cfg_text(constants=c, invariants=LOOP_INVS, properties=["NoStepAfterEnd"]), workers=4, tag="loop")
-        rep.add_tlc(r, f"Loop design model {c}")
+        rep.add_tlc(r, f"Loop design model { {k: (v.name if isinstance(v, tlc.Subst) else v) for k, v in c.items()} }")
         if not r.ok:
             rep.violation(f"spec:Loop:{r.violated}", f"design-level violation {r.violated}", r.error_trace)
     base = dict(Budget=6, Start=1, EpLimit=2, MaxEpLen=3, WarmAct=2, WarmLearn=3)
     for dev, (p, inv) in LOOP_DEVS.items():
         if p != pid:
             continue
-        r = tlc.run("Loop", tlc.cfg_text(constants=dict(base, DEV={dev}), invariants=LOOP_INVS, properties=["NoStepAfterEnd"]), workers=4, tag="loopdev")
+        r = tlc.run("Loop", tlc.cfg_text(constants=dict(base, DEV={dev}, Rows=_loop_rows(pid)), invariants=LOOP_INVS, properties=["NoStepAfterEnd"]), workers=4, tag="loopdev")
         if not r.violated:
             raise tlc.MachineryError(f"canary: deviation {dev} not refuted by the design model")
+        if pid == "C13" and inv and r.violated != inv:
+            raise tlc.MachineryError(f"canary: deviation {dev} refuted by {r.violated}, expected {inv}")
 
 
 def binding_canary(traces, field="obs", ev="add", clause="StoreObs"):
